@@ -404,7 +404,7 @@ pub fn run(args: &Args) -> i32 {
         let v = recheck(&case);
         return finish(args, ev, v, &recheck);
     }
-    let depth = if args.tier == Tier::Quick { 6 } else { 8 };
+    let depth = if args.tier == Tier::Quick { 6 } else { 9 };
     let colls: Vec<&'static str> = COLLS.to_vec();
     let (res, _) = pmap(&colls, args.threads, None, |coll| {
         let s = IdSubject { coll };
